@@ -11,7 +11,7 @@ SPEC = dict(
         dict(name='client', harness='h.cpp', tus=TUS, models=MODELS, ranges_shim=True, loop_bounds=LB,
              instances=[I('client_unauth', 'client_unauth'), I('client_auth_route', 'client_auth_route'), I('client_auth_bind', 'client_auth_bind'), I('client_auth_drop', 'client_auth_drop'),
                         I('other_ns', 'other_ns'), I('sasl_nochecker', 'sasl_nochecker')]
-                       + [I('%s_m%d' % (e, m), e, cdefs={'VP_ACTIVATE_HOOK': 'c16_on_signal', 'VP_CASE': m, 'LIST_CAP': 7}) for e in ('sasl_auth', 'sasl2_auth') for m in [0, 1, 2, 3, 4, 5, 16, 32]]),
+                       + [I('%s_m%d' % (e, m), e, cdefs={'VP_ACTIVATE_HOOK': 'c16_on_signal', 'VP_CASE': m, 'LIST_CAP': 7}) for e in ('sasl_auth', 'sasl2_auth') for m in [0, 1, 2, 3, 4, 5, 16, 32, 48]]),
     ],
     bounds=[], assumptions=[], outside=[],
 )
